@@ -759,6 +759,7 @@ def run(run, tier):
     import networkx as nx
     import EoN.simulation as sim
     props = C.check_props('C17')
+    C.extra_props(run, 'C17', props, ['C17sym'])
     ok, log = C.build_driver('perc')
     if not ok:
         run.violation('C17/build', 'extracted model does not build: ' + log[-500:], {'log': log[-3000:]}, no_input=True)
@@ -800,6 +801,25 @@ def run(run, tier):
             if len(samples) < 3 and c['src'] == 'random' and len(c['arcs']) > 3:
                 samples.append({'digraph': {'n': len(c['perm']), 'labels': c['scheme'], 'arcs': c['arcs']}, 'implementation': repr(impl['est']), 'allowed': sorted((str(a), str(b)) for a, b in pa[1]) if pa[0] == 'OK' else pa[1]})
     stats['est_cases_with_several_answers'] = ties
+    # Props/C17sym.v on the implementation: on a symmetric digraph (an undirected network seen as a digraph) the directed estimator
+    # returns one number twice, the largest connected component over N
+    nsym = 0
+    for c in cases:
+        if c['kind'] != 'est' or not c['perm']: continue
+        H, _, _ = build(nx, c, directed=True)
+        H.add_edges_from([(v, u) for u, v in list(H.edges())])
+        want = max(len(cc) for cc in nx.connected_components(H.to_undirected())) / H.order()
+        try:
+            got = sim.estimate_SIR_prob_size_from_dir_perc(H)
+        except Exception as ex:
+            got = '%s: %s' % (type(ex).__name__, ex)
+        nsym += 1
+        if not (isinstance(got, tuple) and len(got) == 2 and got[0] == got[1] == want):
+            what = 'symmetric digraph (every arc with its reverse): expected (%r, %r), the largest component over N; returned %r' % (want, want, got)
+            sz = len(c['perm']) + len(c['arcs'])
+            if 'est' not in spec_bad or sz < spec_bad['est'][0]:
+                spec_bad['est'] = (sz, what, dict(c, symmetrised=True))
+    stats['est_symmetrised_cases'] = nsym
     ENTRY = {'gin': 'get_infected_nodes', 'est': 'estimate_SIR_prob_size_from_dir_perc', 'comp': '_out_component_', 'ptim': 'nonMarkov_directed_percolate_network_with_timing',
              'pnm': 'nonMarkov_directed_percolate_network', 'perc': 'estimate_SIR_prob_size', 'dpn': 'directed_percolate_network'}
     for ep, (size, what, c) in spec_bad.items():
